@@ -136,6 +136,47 @@ fn corruption_programs(tier: Tier) -> Vec<String> {
     trees.iter().step_by(step).map(|t| parse::print(t, &ops, Parens::Minimal)).collect()
 }
 
+/// case i: kind = i % 3 (prefix, infix, postfix), primed = i >= 3
+fn registered_case(i: u64, out: &mut WorkerOut) {
+    use crate::model::lex::InfixInfo;
+    use expression_engine::{InfixOpAssociativity, InfixOpType};
+    use std::sync::Arc;
+    let word = "wop";
+    let kind = ["prefix", "infix", "postfix"][(i % 3) as usize];
+    let primed = i >= 3;
+    let alphabet = ["1", "x", word, "(", ")", ",", "+", ";"];
+    let seqs = TokenSeqs { alphabet: alphabet.to_vec(), max_len: 5 };
+    let mut ops = OpSet::builtin();
+    let stage = format!("registered[{}{}]", kind, if primed { ",word parsed before registration" } else { "" });
+    if primed {
+        // the word is an ordinary name for now
+        for j in 0..seqs.len() {
+            judge(&seqs.spaced(j), &ops, &stage, out);
+        }
+    }
+    match kind {
+        "prefix" => {
+            expression_engine::register_prefix_op(word, Arc::new(|v| Ok(v)));
+            ops.prefix.insert(word.into());
+        }
+        "infix" => {
+            expression_engine::register_infix_op(word, 105, InfixOpType::CALC, InfixOpAssociativity::LEFT, Arc::new(|a, _| Ok(a)));
+            ops.infix.insert(word.into(), InfixInfo { prec: 105, left: true, setter: false });
+        }
+        _ => {
+            expression_engine::register_postfix_op(word, Arc::new(|v| Ok(v)));
+            ops.postfix.insert(word.into());
+        }
+    }
+    for j in 0..seqs.len() {
+        let s = seqs.spaced(j);
+        judge(&s, &ops, &stage, out);
+        out.nontrivial.insert(hash64(&format!("{}{}", kind, s)));
+    }
+    out.count("states", 1);
+    out.count("transitions", seqs.len());
+}
+
 impl Prop for C05 {
     fn id(&self) -> &'static str {
         "C05"
@@ -158,6 +199,13 @@ impl Prop for C05 {
             chunk: (sw.len() / 64).max(2000),
             timeout: Duration::from_secs(1200),
             what: format!("all strings of <= {} fragments (lexical malformations: quotes, numbers, multi-byte)", sw.max_len),
+        });
+        stages.push(Stage {
+            name: "registered".into(),
+            len: 6,
+            chunk: 1,
+            timeout: Duration::from_secs(300),
+            what: "fresh process: {prefix, infix, postfix} word operator registered, with or without parsing text that contains the word beforehand; then every sequence of <= 5 tokens over {1, x, the word, (, ), ',', +, ;} judged under the extended table".into(),
         });
         let n = corruption_programs(tier).len() as u64;
         stages.push(Stage {
@@ -222,6 +270,13 @@ impl Prop for C05 {
             out.count("transitions", b - a);
             return;
         }
+        if stage == sq.len() + 1 {
+            for i in a..b {
+                out.idx = Some(i);
+                registered_case(i, out);
+            }
+            return;
+        }
         let progs = corruption_programs(tier);
         for i in a..b {
             out.idx = Some(i);
@@ -247,6 +302,9 @@ impl Prop for C05 {
         }
         if stage == sq.len() {
             return show(&sweep(tier).get(i));
+        }
+        if stage == sq.len() + 1 {
+            return format!("registered case {}", i);
         }
         show(&corruption_programs(tier)[i as usize])
     }
